@@ -592,11 +592,11 @@ def cut_async(trace):
     return " ".join(out)
 
 class Case:
-    __slots__ = ("body", "decl", "mode", "probe", "hists", "depths", "create", "tag", "exp", "sig", "gidx", "lay")
+    __slots__ = ("body", "decl", "mode", "probe", "hists", "depths", "create", "tag", "exp", "sig", "lay")
     def __init__(self, body, decl, mode, probe, hists, depths, create, tag, sig=None):
         self.body, self.decl, self.mode, self.probe = body, decl, mode, probe
         self.hists, self.depths, self.create, self.tag = hists, depths, create, tag
-        self.exp, self.sig, self.gidx, self.lay = None, sig, None, None
+        self.exp, self.sig, self.lay = None, sig, None
     def src(self): return js_func(self.body, self.mode, self.probe, self.decl)
     def tokens(self): return " ".join(tok_block(self.body))
     def harness_line(self):
@@ -608,16 +608,8 @@ class Case:
     def single(self, i):
         return Case(self.body, self.decl, self.mode, self.probe, [self.hists[i]], [self.depths[i]], [self.create[i]], self.tag, self.sig)
 
-KNOWN_G = "goja:yield-star-reentrant-call-from-inside-the-delegate-is-not-rejected"
-import re
-_RX = re.compile(r"I([123]\d)x")
-
-def yield_star_ids(body):
-    return set(e[1][0] for s in body for e in stmt_exprs(s) if e[0] == "YS")
-
 def set_expected(case, model_out):
-    """case.exp = spec traces; case.gidx[i] = first command of history i during which a yield*-delegate makes a re-entrant
-    call on the generator (unrepaired finding G, known_findings.d/C09.json: goja does not reject it) or None."""
+    """case.exp = spec traces, case.lay = Link.encode layout after each command"""
     raw = model_out.split(" # ")
     tr, lay = [], []
     for t in raw:
@@ -625,16 +617,6 @@ def set_expected(case, model_out):
         tr.append(a.strip()); lay.append(b.strip())
     case.lay = lay
     case.exp = [cut_async(t) for t in tr] if case.mode == "async" else tr
-    ids = yield_star_ids(case.body) if case.mode == "gen" else set()
-    gidx = []
-    for t in case.exp:
-        idx = None
-        if ids:
-            for j, part in enumerate(t.split(" ")):
-                if any(int(m) in ids for m in _RX.findall(part.split(";", 1)[0])):
-                    idx = j; break
-        gidx.append(idx)
-    case.gidx = gidx
 
 def first_diff(exp, obs):
     e, o = exp.split(" "), obs.split(" ")
@@ -656,12 +638,6 @@ def compare(case, hline):
     mm = [(i, exp[i] if i < len(exp) else "?", obs[i] if i < len(obs) else "?")
           for i in range(max(len(exp), len(obs))) if i >= len(exp) or i >= len(obs) or exp[i] != obs[i]]
     return mm, h.get("mech") or [], h.get("idle", "ok"), None
-
-def explained_by_G(case, i, exp, obs):
-    gi = case.gidx[i] if case.gidx else None
-    if gi is None: return False
-    d = first_diff(exp, obs)
-    return d is not None and d >= gi
 
 # ----------------------------------------------------------------------------------------- shrinking
 def replace_block(s, key, nb):
@@ -701,7 +677,6 @@ def single_mismatch(ctx, harness, model, case):
     if rc == 124 or not hl:
         return (0, case.exp[0], "goja did not return within 240 s (hang or crash): " + err[-200:])
     mm, _, idle, _ = compare(case, hl[0])
-    mm = [m for m in mm if not explained_by_G(case, m[0], m[1], m[2])]
     if not mm and idle != "ok":
         mm = [(0, case.exp[0] + " / idle ok", json.loads(hl[0]).get("traces", ["?"])[0] + " / " + idle)]
     return mm[0] if mm else None
@@ -883,7 +858,7 @@ def main(ctx):
         ctx.obligation("corr:model-run", "correspondence", False, "model driver unavailable or failing (Lean build broken?)")
         indep_oracle(ctx, cases, hl)        # the implementation-side search still runs: laws that need no model
         return ctx.finish(level="proof", rule=RULE)
-    n_hist = 0; bad = {"gen": [], "async": []}; mech = {}; idle_bad = []; g_hits = []; lay_bad = []; lay_n = 0
+    n_hist = 0; bad = {"gen": [], "async": []}; mech = {}; idle_bad = []; lay_bad = []; lay_n = 0
     feats = {}; reskinds = {"Y": 0, "D": 0, "T": 0}; lens = {}; depth_used = {}
     for c, h in zip(cases, hl):
         if h is None:
@@ -900,18 +875,12 @@ def main(ctx):
             except Exception:
                 hlay = []
             for i, (ml_, hl_) in enumerate(zip(c.lay, hlay)):
-                if c.gidx and c.gidx[i] is not None:
-                    continue
                 lay_n += ml_.count("[")
                 if ml_ != hl_ and len(lay_bad) < 5:
                     lay_bad.append((c, i, ml_, hl_))
                 elif ml_ != hl_:
                     lay_bad.append(None)
-        for (i, e, o) in mm:
-            if explained_by_G(c, i, e, o):
-                g_hits.append((c, i, e, o))
-            else:
-                bad[c.mode].append((c, i, e, o))
+        bad[c.mode].extend((c, i, e, o) for i, e, o in mm)
         if not mm:
             for f in body_features(c.body):
                 feats[f] = feats.get(f, 0) + 1
@@ -926,10 +895,6 @@ def main(ctx):
             if c.mode == "gen":
                 for d in c.depths:
                     for ch in d: depth_used[ch] = depth_used.get(ch, 0) + 1
-    ctx.stats["unrepaired_finding_G"] = {"histories_in_territory": sum(1 for c in cases if c.gidx for x in c.gidx if x is not None), "disagreements_attributed": len(g_hits)}
-    for (c, i, e, o) in g_hits[:1]:
-        c1 = c.single(i)
-        ctx.violation(KNOWN_G, "%s {%s} history [%s]: spec %s / goja %s" % (c1.mode, c1.src()[:260], c1.hists[0], e, o), replay_dict(c1, e, o, False))
     ctx.count(n_hist)
     for c in cases[:3] + cases[-3:]:
         ctx.sample({"mode": c.mode, "src": c.src()[:400], "history": c.hists[-1], "depths": c.depths[-1]})
